@@ -268,6 +268,7 @@ class C06(HistoryProperty):
     def gen_case(self, rng, tier):
         cfg = gen.swarm_cfg(rng, off=("shape_change", "alloptions", "dangling", "tmpl_preset"), on=("dispatch", "overloads", "opt_default_expr", "dsclass"))
         cfg["map_partial"] = True
+        cfg["returns_node"] = rng.random() < 0.5  # bodies handing back an Evaluatable OBJECT as a plain value
         if rng.random() < 0.4:  # a share of the programs without option-rewriting nodes at all (the simplest setting)
             cfg["kinds"] = [k for k in cfg["kinds"] if k not in ("withopts", "derive", "map")]
             cfg["presets"] = cfg["default_presets"] = False
